@@ -194,6 +194,9 @@ class C41(Check):
                 self.oracle(r, P, T, text)
             except DriverTimeout:
                 self.skip("timeout")
+                self.timeouts = getattr(self, "timeouts", 0) + 1
+                if self.timeouts <= 2:
+                    self.slow.append({"timeout_request": text[:3000]})
                 return
             except Violation as v:
                 if "repeat" not in case:
